@@ -709,7 +709,7 @@ impl Property for C30 {
         "records additionally: type, body and (for unknown types) critical bit survive parse→serialise (information preservation; added after a lossy-parser mutant survived the value round trip)",
     ];
     const QUICK_CASES: u32 = 1_000_000;
-    const THOROUGH_CASES: u32 = 8_000_000;
+    const THOROUGH_CASES: u32 = 66_000_000;
 
     fn strategy(_tier: Tier) -> BoxedStrategy<Case> {
         shape().prop_map(assemble).boxed()
